@@ -8,41 +8,23 @@ import NetaddrVerif.Model.Nmap
                                          `.glob = S` setter on an existing IPGlob), each or `!`
     range2globs A A                    → `[S,…]` or `!`
     cidr2glob N                        → `S` or `!`
-    nmap fuel S netres addrres         → `valid iter`: T/F or `!` (an exception valid_nmap_range lets through),
-                                         then `[v,…]` (IPv6 as `6:v`) or `!`
-    nmap_multi fuel [S,…]              → `[v,…]` + `!` if a spec failed (octet-list specs only)
-
-    `netres` / `addrres` = result of the foreign `IPNetwork(spec)` / `IPAddress(spec)`:
-    `N:ver:val:plen` / `A:ver:val`, `!<tag>`, or `-` when the branch is not reached. -/
+    nmap fuel S                        → `valid iter`: T/F or `!tag` (an exception valid_nmap_range lets through),
+                                         then `[v,…]` (IPv6 as `6:v`) or `!tag` (class of the exception);
+                                         the foreign parsers are the real models (`Nmap.realForeign .platform`)
+    nmap_multi fuel [S,…]              → `[v,…]` + `!tag` if a spec failed; `fuel` bounds each spec (Nmap.iterNmapRanges)
+    nmap_islice fuel [S,…]             → the same for `islice(iter_nmap_range(*specs), fuel)` (Nmap.isliceNmapRanges)
+    nmap_plan fuel S                   → iteration through `parsePlan` + `Plan.items` (must equal the `iter` of `nmap`) -/
 namespace NV.Driver.C17
 open NV NV.Proto
 
 def showStrs (l : List (List Char)) : String := showList (l.map showStr)
 
-def errOfTag (t : String) : Err :=
-  if t == "addrFormat" then .addrFormat
-  else if t == "addrConversion" then .addrConversion
-  else if t == "value" then .value
-  else if t == "type" then .type_
-  else if t == "index" then .index
-  else if t == "notRegistered" then .notRegistered
-  else if t == "key" then .key
-  else if t == "notImpl" then .notImpl
-  else .other
+def F : Nmap.Foreign := Nmap.realForeign .platform
 
-def parseNetRes (tok : String) : R Net :=
-  if tok.startsWith "!" then .error (errOfTag (tok.drop 1).toString)
-  else match parseNet tok with
-    | some n => .ok n
-    | none => .error .other
-
-def parseAddrRes (tok : String) : R Addr :=
-  if tok.startsWith "!" then .error (errOfTag (tok.drop 1).toString)
-  else match parseAddr tok with
-    | some n => .ok n
-    | none => .error .other
-
-def foreign (n a : String) : Nmap.Foreign := ⟨fun _ => parseNetRes n, fun _ => parseAddrRes a⟩
+def showAddrs (r : R (List Addr)) (sh : Addr → String) : String :=
+  match r with
+  | .ok l => showList (l.map sh)
+  | .error e => showErr e
 
 def showAddr (a : Addr) : String := if a.ver = 4 then toString a.val else s!"{a.ver}:{a.val}"
 
@@ -84,21 +66,27 @@ def handle (op : String) (args : List String) : Option String :=
     match Glob.cidrToGlob n with
     | .ok g => pure (showStr g)
     | .error _ => pure "!"
-  | "nmap", [fuel, s, n, a] => do
+  | "nmap", [fuel, s] => do
     let fuel ← fuel.toNat?
     let s ← parseStr s
-    let v := match Nmap.validNmapRange (foreign n a) s with
+    let v := match Nmap.validNmapRange F s with
       | .ok b => showBool b
-      | .error _ => "!"
-    let it := match Nmap.iterNmapRange (foreign n a) fuel s with
-      | .ok l => showList (l.map showAddr)
-      | .error _ => "!"
-    pure (v ++ " " ++ it)
+      | .error e => showErr e
+    pure (v ++ " " ++ showAddrs (Nmap.iterNmapRange F fuel s) showAddr)
+  | "nmap_plan", [fuel, s] => do
+    let fuel ← fuel.toNat?
+    let s ← parseStr s
+    pure (showAddrs ((Nmap.parsePlan F s).map (Nmap.Plan.items fuel)) showAddr)
   | "nmap_multi", [fuel, ss] => do
     let fuel ← fuel.toNat?
     let ss ← (← parseList ss).mapM parseStr
-    let r := Nmap.iterNmapRanges (foreign "-" "-") fuel ss
-    pure (showList (r.1.map showAddr) ++ (if r.2.isSome then "!" else ""))
+    let r := Nmap.iterNmapRanges F fuel ss
+    pure (showList (r.1.map showAddr) ++ (match r.2 with | some e => showErr e | none => ""))
+  | "nmap_islice", [fuel, ss] => do
+    let fuel ← fuel.toNat?
+    let ss ← (← parseList ss).mapM parseStr
+    let r := Nmap.isliceNmapRanges F fuel ss
+    pure (showList (r.1.map showAddr) ++ (match r.2 with | some e => showErr e | none => ""))
   | _, _ => none
 
 end NV.Driver.C17
